@@ -208,6 +208,11 @@ func (m *CSMatrix) Mmap(ctx context.Context) error {
 		logger.Debug().Msg("mapped but dirty, reloading")
 	}
 	nnz := m.NNZ()
+	if nnz == 0 {
+		// Nothing to swap out (and a zero-length mmap is invalid);
+		// just let go of a stale mapping, if any.
+		return m.Munmap()
+	}
 	if int(uintptr(nnz)) != nnz {
 		return fmt.Errorf("matrix too big (%#v entries)", nnz)
 	}
@@ -226,6 +231,13 @@ func (m *CSMatrix) Mmap(ctx context.Context) error {
 	filename := file.Name()
 	logger = logger.With().Str("filename", filename).Logger()
 	logger.Debug().Int("nnz", nnz).Msg("swapping out")
+	removed := false
+	defer func() {
+		if !removed {
+			logger.Trace().Msg("removing file upon failure")
+			_ = os.Remove(filename)
+		}
+	}()
 	defer func() {
 		if file != nil {
 			logger.Trace().Msg("closing file without mapping")
@@ -260,6 +272,7 @@ func (m *CSMatrix) Mmap(ctx context.Context) error {
 	if err != nil {
 		return err
 	}
+	removed = true
 	e0 := (*Entry)(unsafe.Pointer(&mapped[0]))
 	entries := unsafe.Slice(e0, nnz)
 	logger.Trace().Msg("copying")
